@@ -232,6 +232,54 @@ def run(v, tier, seed, replay=None):
             io[k] = r
     dis = [(c, m, i) for c, m, i in zip(cases, mo, io) if m != i]
     bad = [(c, e, i) for c, e, i in zip(cases, exp, io) if e != i]
+    # the concurrent histories again on the build with yield/sleep injection at every lock / unlock and between a false wait
+    # predicate and the wait itself (a notifier that changes the state without the mutex loses its wake-up there)
+    # abort() racing with a call that is just about to wait: whatever the order, the call must return (abort releases every waiter)
+    # (each racing call would block, so the order of effects is forced; expectation = the reference for the '&' form without '&sleep')
+    racing = [(c, ' '.join(t for t in oracle(c.replace('%', '&').split()).split(' ') if t != '&sleep'))
+              for c in ('b1 %r a', 'b1 w1 %w2 a', 'b2 w1 r %r a E', 'b1 f5 w1 %w2 a G')]
+    nrace = 0
+    if not replay:
+        shexe0 = common.build_harness('oq', variant='sched')
+        reps = 60 if tier == 'quick' else 600
+        for exe_, nm, sds in ((hexe, 'plain', [0]), (shexe0, 'sched', [seed * 1000 + 500 + k for k in range(1, 4)])):
+            for sd in sds:
+                os.environ['VERIF_SCHED_SEED'] = str(sd)
+                os.environ['VERIF_BLOCK_MS'] = '300'
+                rl = ['Q ' + c for c, _ in racing] * reps
+                ro = run_impl_sharded(exe_, rl)
+                del os.environ['VERIF_BLOCK_MS']
+                del os.environ['VERIF_SCHED_SEED']
+                nrace += len(rl)
+                for (c, e), o in zip(racing * reps, ro):
+                    if o != e and o != 'SKIPPED':
+                        # rule out a slow wake-up under load: the same history again with a generous time-out
+                        os.environ['VERIF_SCHED_SEED'] = str(sd)
+                        os.environ['VERIF_BLOCK_MS'] = '2500'
+                        again = codec.run_impl(exe_, ['Q ' + c] * 40)
+                        del os.environ['VERIF_BLOCK_MS']
+                        del os.environ['VERIF_SCHED_SEED']
+                        wrong = [x for x in again if x != e and x != 'SKIPPED']
+                        if wrong:
+                            bad.append((c + '   [abort() racing with the call; build %s, seed %d]' % (nm, sd), e, wrong[0]))
+                        break
+    conc = [k for k, c in enumerate(cases) if '&' in c]
+    nsched = 0
+    if conc and not replay:
+        shexe = common.build_harness('oq', variant='sched')
+        for sd in range(1, 4 if tier == 'quick' else 12):
+            os.environ['VERIF_SCHED_SEED'] = str(seed * 1000 + sd)
+            os.environ['VERIF_BLOCK_MS'] = '300'
+            so = run_impl_sharded(shexe, [lines[k] for k in conc])
+            sus = [j for j, k in enumerate(conc) if so[j] != exp[k]]
+            if sus:
+                os.environ['VERIF_BLOCK_MS'] = '1500'
+                for j, r in zip(sus, run_impl_sharded(shexe, [lines[conc[j]] for j in sus])):
+                    so[j] = r
+            del os.environ['VERIF_BLOCK_MS']
+            del os.environ['VERIF_SCHED_SEED']
+            nsched += len(conc)
+            bad += [(cases[k] + '   [schedule perturbation seed %d]' % (seed * 1000 + sd), exp[k], so[j]) for j, k in enumerate(conc) if so[j] != exp[k] and so[j] != 'SKIPPED']
     nblocked = sum(1 for i in io if 'blocked' in i)
     if bad:
         c, e, i = min(bad, key=lambda x: len(x[0]))
@@ -251,8 +299,8 @@ def run(v, tier, seed, replay=None):
         'obligations': info['obligations'], 'discharged': info['discharged'], 'checker_cmd': info['checker_cmd'],
         'trusted_base': TRUSTED + info['print_assumptions'], 'failed_obligations': info['failed'],
         'evaluations': len(cases), 'distinct_nontrivial': len(set(c for c in cases if len(c.split()) >= 3)),
-        'rule': 'histories of ObjectQueue calls (r read, w<tok> write, a abort, f<n> setFileSize, b<n> setBufferSize, g/p/G/E accessors, D destroy; &r / &w<tok>: the call is made on a second thread and may stay asleep while the history continues — it must complete exactly when a later call makes its predicate true): corpus, hand-picked corners, ALL sequences up to length %d over {r,w,a,f0,f1,f2,b1} at capacity 2, and random histories of 3..40 calls at capacities 1..8; a call that blocks ends its history (abort() must then release it). Each history is run on the translated methods (extracted interpreter), on the real ObjectQueue, and on a reference FIFO written from the property text. Non-trivial = distinct history of at least 3 calls.' % (4 if tier == 'quick' else 6),
-        'exhaustive_prefix': exhaustive, 'histories_ending_blocked': nblocked,
+        'rule': 'histories of ObjectQueue calls (r read, w<tok> write, a abort, f<n> setFileSize, b<n> setBufferSize, g/p/G/E accessors, D destroy; &r / &w<tok>: the call is made on a second thread and may stay asleep while the history continues — it must complete exactly when a later call makes its predicate true): corpus, hand-picked corners, ALL sequences up to length %d over {r,w,a,f0,f1,f2,b1} at capacity 2, and random histories of 3..40 calls at capacities 1..8; a call that blocks ends its history (abort() must then release it). Each history is run on the translated methods (extracted interpreter), on the real ObjectQueue, and on a reference FIFO written from the property text; the concurrent histories (with & calls) also on the build with seeded yield/sleep injection at every lock/unlock and between a false wait predicate and the wait. Non-trivial = distinct history of at least 3 calls.' % (4 if tier == 'quick' else 6),
+        'exhaustive_prefix': exhaustive, 'histories_ending_blocked': nblocked, 'concurrent_histories_under_schedule_perturbation': nsched, 'abort_racing_runs': nrace,
         'length_distribution': {'min': min(lens), 'max': max(lens), 'mean': round(sum(lens) / len(lens), 1)},
         'op_distribution': {k: sum(c.split().count(k) if len(k) > 1 else sum(1 for t in c.split() if t.lstrip('&')[0] == k) for c in cases) for k in 'rwafbgpGED'},
         'histories_with_a_sleeping_call': sum(1 for c in cases if '&' in c), 'correspondence_disagreements': len(dis), 'oracle_failures': len(bad),
